@@ -1180,6 +1180,16 @@ impl<'a> GeneratorState<'a> {
     }
 
     pub fn generate_statement(&mut self, code: &'a StatementLoc<'a>) -> Result<(), Error> {
+        // A function can be entered with any processor state: when the statement is the body of the
+        // current function, forget what the code of the previous function left in the flags
+        if let Some(name) = &self.current_function {
+            if let Some(Function { code: Some(body), .. }) = self.compiler_state.functions.get(name) {
+                if std::ptr::eq(body, code) {
+                    self.flags = FlagsState::Unknown;
+                    self.carry_flag_ok = false;
+                }
+            }
+        }
         // Include C source code into generated asm
         // debug!("{:?}, {}, {}, {}", expr, pos, self.last_included_position, self.last_included_line_number);
         if self.insert_code {
